@@ -148,6 +148,8 @@ _add('v:[1', 'verb', '[[1', ['[1'], cls='invalid')
 _add('a:1@', 'aset', '1@', ['1@'], cls='invalid')
 _add('a:~1', 'aset', '~1', ['~1'], cls='invalid')
 _add('a:1`', 'aset', '1`', ['1`'], cls='invalid')
+_add('a:3_1', 'aset', '3_1', ['3_1'], cls='invalid')
+_add('v:38;5;1_0', 'verb', '[38;5;1_0', ['38;5;1_0'], cls='invalid')
 _add('a:1/2', 'aset', '1/2', ['1/2'], cls='odd')
 _add('a:1\x7f', 'aset', '1\x7f', ['1\x7f'], cls='odd')
 
